@@ -46,6 +46,20 @@ FN_EXPR = {
     'size': 'ToString(Size([%s]))',
     'like': 'ToString(Like(%s, "%%"))',
 }
+# A flag value read in other places than the head of a fact: FlagValue(..)
+# concatenated, compared with a string column, inside a list / a record, and
+# the ${flag} form inside a string literal; value given as @DefineFlag default
+# (d..) or by the user (u..).  Top-level context only.
+FLAG_EXPR = {
+    'cat': '"a" ++ FlagValue("%s") ++ "a"',
+    'list': None, 'eq': None,
+    'rec': '{f: FlagValue("%s")}',
+    'param': '"a${%s}a"',
+}
+FLAG_POSITIONS = [src + k for src in 'du' for k in ('cat', 'eq', 'list',
+                                                     'rec', 'param')]
+USER_POSITIONS = ['user'] + [p for p in FLAG_POSITIONS if p[0] == 'u']
+TOP_ONLY = set(FN_POSITIONS) | set(FLAG_POSITIONS)
 FORMS = ['dq', 'sq', 'tq', 'sqraw']
 MARKER = 'qzq'
 ISOLATION_BUDGET = 48    # extra programs per failing batch of strings
@@ -218,6 +232,16 @@ def _RuleFor(pos, ctx, i, lit):
             head % ('FlagValue("fu%d")' % i) + ';')
   if pos in FN_EXPR:
     return head % (FN_EXPR[pos] % lit) + ';'
+  if pos in FLAG_POSITIONS:
+    user, kind = pos[0] == 'u', pos[1:]
+    flag = ('fu%d' if user else 'fd%d') % i
+    define = '@DefineFlag("%s", %s);\n' % (flag, '"a"' if user else lit)
+    if kind == 'list':
+      return define + head % 'x' + ' :- x in [FlagValue("%s")];' % flag
+    if kind == 'eq':      # lit: the same string, as the content of a column
+      return (define + 'S%d(%s);\n' % (i, lit) +
+              head % 'x' + ' :- S%d(x), x == FlagValue("%s");' % (i, flag))
+    return define + head % (FLAG_EXPR[kind] % flag) + ';'
   raise ValueError(pos)
 
 
@@ -239,7 +263,7 @@ def _Value(pos, v):
   """SQLite value -> (status, text).  A record comes back as JSON text (that
   is SQLite's representation of a Logica record): its field f is read with
   JSON rules."""
-  if pos == 'record':
+  if pos in ('record', 'drec', 'urec'):
     try:
       v = json.loads(v)['f']
     except Exception:  # pylint: disable=broad-except
@@ -259,7 +283,7 @@ def _RunBatch(pos, ctx, lits, values):
     try:
       rules = m['parse'].ParseFile(text)['rule']
       user_flags = {}
-      if pos == 'user':
+      if pos in USER_POSITIONS:
         user_flags = ReadUserFlags(
             rules, [('fu%d' % i, v) for i, v in enumerate(values)])
       program = m['universe'].LogicaProgram(rules, user_flags=user_flags)
@@ -327,8 +351,9 @@ def _Forms(form, strings):
 def _PipeTask(task):
   pos, ctx, form, strings = task
   forms = _Forms(form, strings)
-  if pos == 'user':
-    lits = ['"a"'] * len(strings)
+  if pos in USER_POSITIONS:
+    lits = ([Render(PrimaryForm(s), s) for s in strings] if pos == 'ueq'
+            else ['"a"'] * len(strings))
     values = strings
   else:
     lits = [Render(f, s) for f, s in zip(forms, strings)]
@@ -350,7 +375,7 @@ def _PipeTask(task):
   res = Solve(lits, values)
   recs = []
   for s, l, form, (st, got, detail) in zip(strings, lits, forms, res):
-    written = s if pos == 'user' else l
+    written = s if pos in USER_POSITIONS else l
     rec = {'k': 'pipe', 'pos': pos, 'ctx': ctx, 'form': form,
            'lit': written, 'status': st, 'got': got, '_key': s,
            'id': 'p:%s:%s:%s:%s' % (pos, ctx, form, json.dumps(Cps(written)))}
@@ -368,8 +393,9 @@ def _Batches(pairs, pos, batch):
   whole when one of its literals has the parameter form ${..} with an
   undefined name, so such strings get a program of their own instead of
   spoiling a batch (any other failing batch is bisected by _PipeTask)."""
-  alone = [p for p in pairs if pos != 'user' and _PARAM_FORM.search(p[1])]
-  together = [p for p in pairs if not (pos != 'user' and
+  alone = [p for p in pairs if pos not in USER_POSITIONS and
+           _PARAM_FORM.search(p[1])]
+  together = [p for p in pairs if not (pos not in USER_POSITIONS and
                                        _PARAM_FORM.search(p[1]))]
   parts = [together[i:i + batch] for i in range(0, len(together), batch)]
   return parts + [[p] for p in alone]
@@ -381,8 +407,8 @@ def PipeTasks(strings, batch, forms_for=None, positions=None):
   literal forms; each record carries the form its literal was written in)."""
   tasks = []
   for pos in positions or POSITIONS + FN_POSITIONS:
-    for ctx in (('top',) if pos in FN_EXPR else ('top', 'nested')):
-      forms = ['argv'] if pos == 'user' else FORMS
+    for ctx in (('top',) if pos in TOP_ONLY else ('top', 'nested')):
+      forms = ['argv'] if pos in USER_POSITIONS else FORMS
       pairs = []
       for form in forms:
         sel = [s for s in strings if form == 'argv' or CanWrite(form, s)]
